@@ -860,6 +860,7 @@ def process_fn_block(head, lines, meta, stub=False):
     attrs = []
     spec = []
     loops = {}
+    loopends = {}
     inserts = []  # (mode, anchor, k, lines)
     subs = []
     sigsubs = []
@@ -880,6 +881,9 @@ def process_fn_block(head, lines, meta, stub=False):
                 cur = spec
             elif kw == 'loop':
                 cur = loops.setdefault(int(arg), [])
+            elif kw == 'loopend':
+                # a hint block placed right before the closing brace of the k-th loop's body (robust against edits inside the body)
+                cur = loopends.setdefault(int(arg), [])
             elif kw in ('after', 'before'):
                 # one or more alternative anchors: "text" [#k] | "other text" [#k]  (first one found wins)
                 alts = []
@@ -989,6 +993,28 @@ def process_fn_block(head, lines, meta, stub=False):
         elif sb[0] == 'desugar':
             body = desugar_option(body, sb[1], sb[2], cnt)
     # loop invariants (insert from last to first so indices stay valid)
+    if loopends:
+        lp = find_loops(body)
+        for k in sorted(loopends, reverse=True):
+            if k < 1 or k > len(lp):
+                raise ExtractError('lost anchor: loop %d of %s (found %d loops)' % (k, name, len(lp)))
+            # matching close brace of the loop body
+            depth = 0
+            close = None
+            for j, kind, t in scan(body, lp[k - 1]):
+                if kind != 'code':
+                    continue
+                if t == '{':
+                    depth += 1
+                elif t == '}':
+                    depth -= 1
+                    if depth == 0:
+                        close = j
+                        break
+            if close is None:
+                raise ExtractError('lost anchor: end of loop %d of %s' % (k, name))
+            ins = '\n' + '\n'.join('/*@inj*/' + l for l in loopends[k]) + '\n'
+            body = body[:close] + ins + body[close:]
     if loops:
         lp = find_loops(body)
         for k in sorted(loops, reverse=True):
